@@ -71,12 +71,14 @@ type Changed[T any] struct {
 	Value T      `json:"value"`
 }
 
-const nTypes = 4 // Go types 0..3 of each family; type 4 = Unsendable (bus only); 5, 6 = instantiations of Changed (JSON only)
+const nTypes = 4 // Go types 0..3 of each family; type 4 = Unsendable (bus only); 5, 6 = instantiations of Changed (JSON only);
+// 7 = OrderPlaced behind two pointers (JSON only): the value sent is a **OrderPlaced (`cmd := NewX(); bus.Send(ctx, &cmd)`), a handler
+// declared for *OrderPlaced decodes into a **OrderPlaced – same name as OrderPlaced: the name functions ignore pointers
 
 // famTypes lists the Go types of a family that can be marshalled.
 func famTypes(marsh byte) []int {
 	if marsh == 'j' {
-		return []int{0, 1, 2, 3, 5, 6}
+		return []int{0, 1, 2, 3, 5, 6, 7}
 	}
 	return []int{0, 1, 2, 3}
 }
@@ -84,7 +86,7 @@ func famTypes(marsh byte) []int {
 // nDec is the length of the decode table of a message (indexed by Go type; Unsendable never decodes).
 func nDec(marsh byte) int {
 	if marsh == 'j' {
-		return 7
+		return 8
 	}
 	return nTypes
 }
@@ -98,7 +100,7 @@ func validType(marsh byte, ty int) bool {
 	return false
 }
 
-var jsonTypeNames = []string{"OrderPlaced", "OrderShipped", "UserCreated", "Ping", "Unsendable", "Changed[main.OrderPlaced]", "Changed[main.UserCreated]"}
+var jsonTypeNames = []string{"OrderPlaced", "OrderShipped", "UserCreated", "Ping", "Unsendable", "Changed[main.OrderPlaced]", "Changed[main.UserCreated]", "OrderPlaced"}
 var protoTypeNames = []string{"StringValue", "BytesValue", "Int64Value", "Duration", "Unsendable"}
 
 func newValue(marsh byte, ty int) interface{} {
@@ -119,6 +121,8 @@ func newValue(marsh byte, ty int) interface{} {
 			return &Changed[OrderPlaced]{}
 		case 6:
 			return &Changed[UserCreated]{}
+		case 7:
+			return new(*OrderPlaced)
 		}
 	} else {
 		switch ty {
@@ -162,6 +166,9 @@ func mkValue(marsh byte, ty int, seed uint64) interface{} {
 			return &Changed[OrderPlaced]{ID: words[r.Intn(len(words))], Value: OrderPlaced{ID: words[r.Intn(len(words))], Qty: r.Intn(2000) - 1000}}
 		case 6:
 			return &Changed[UserCreated]{ID: words[r.Intn(len(words))], Value: UserCreated{Who: words[r.Intn(len(words))], Age: uint8(r.Intn(256))}}
+		case 7:
+			inner := &OrderPlaced{ID: words[r.Intn(len(words))], Qty: r.Intn(2000) - 1000}
+			return &inner
 		}
 	} else {
 		switch ty {
@@ -234,12 +241,14 @@ func typeIndex(v interface{}) int {
 		return 5
 	case *Changed[UserCreated], Changed[UserCreated]:
 		return 6
+	case **OrderPlaced:
+		return 7
 	}
 	return -1
 }
 
-var caseNames = []string{"evt", "EVT", "Evt", "evt", "eVt", "EVt", "evT"}      // differ only in case; 0 and 3 collide
-var foldNames = []string{"k", "K", "ſ", "s", "S", "ss", "ß"} // Kelvin sign / long s: equal only under Unicode case folding
+var caseNames = []string{"evt", "EVT", "Evt", "evt", "eVt", "EVt", "evT", "EvT"}      // differ only in case; 0 and 3 collide
+var foldNames = []string{"k", "K", "ſ", "s", "S", "ss", "ß", "SS"} // Kelvin sign / long s: equal only under Unicode case folding
 
 // genFunc is the GenerateName handed to the marshaler; nil = the default (FullyQualifiedStructName).
 func genFunc(gen int) func(v interface{}) string {
@@ -294,6 +303,7 @@ func wantName(marsh byte, gen, ty int) string {
 		if marsh == 'j' && ty == 0 {
 			return "order-placed"
 		}
+		// (type 7: the method set of **OrderPlaced is empty, NamedStruct falls back to StructName)
 		if marsh == 'j' && ty == 2 {
 			return "user.created"
 		}
@@ -925,6 +935,8 @@ func (r *procRun) commandHandler(idx, ty int) cqrs.CommandHandler {
 			return cqrs.NewCommandHandler(n, handleFn[Changed[OrderPlaced]](r, idx))
 		case 6:
 			return cqrs.NewCommandHandler(n, handleFn[Changed[UserCreated]](r, idx))
+		case 7:
+			return cqrs.NewCommandHandler(n, handleFn[*OrderPlaced](r, idx))
 		}
 	} else {
 		switch ty {
@@ -957,6 +969,8 @@ func (r *procRun) eventHandler(idx, ty int) cqrs.EventHandler {
 			return cqrs.NewEventHandler(n, handleFn[Changed[OrderPlaced]](r, idx))
 		case 6:
 			return cqrs.NewEventHandler(n, handleFn[Changed[UserCreated]](r, idx))
+		case 7:
+			return cqrs.NewEventHandler(n, handleFn[*OrderPlaced](r, idx))
 		}
 	} else {
 		switch ty {
@@ -988,6 +1002,8 @@ func (r *procRun) groupHandler(idx, ty int) cqrs.GroupEventHandler {
 			return cqrs.NewGroupEventHandler(handleFn[Changed[OrderPlaced]](r, idx))
 		case 6:
 			return cqrs.NewGroupEventHandler(handleFn[Changed[UserCreated]](r, idx))
+		case 7:
+			return cqrs.NewGroupEventHandler(handleFn[*OrderPlaced](r, idx))
 		}
 	} else {
 		switch ty {
@@ -1419,7 +1435,7 @@ func genReg(rng *wh.Rng, marsh byte) []int {
 	if marsh == 'j' && rng.Intn(5) == 0 {
 		// both instantiations of the generic type (and sometimes its type argument) side by side
 		for i := range reg {
-			reg[i] = []int{5, 6, 5, 6, 0}[rng.Intn(5)]
+			reg[i] = []int{5, 6, 5, 6, 0, 7, 7}[rng.Intn(7)]
 		}
 		return reg
 	}
@@ -1506,7 +1522,7 @@ func generate(out *wh.Out, a wh.Args) {
 	for _, cmd := range []bool{true, false} {
 		for _, marsh := range []byte{'j', 'p'} {
 			for gen := 0; gen < nGens; gen++ {
-				for ty := 0; ty <= 6; ty++ {
+				for ty := 0; ty <= 7; ty++ {
 					if ty != 4 && !validType(marsh, ty) {
 						continue
 					}
